@@ -38,7 +38,9 @@ func newC10Loop() *c10Loop {
 	return l
 }
 
-var c10Sentinel = []byte("OPTIONS sip:sentinel@verif.invalid SIP/2.0\r\nCall-ID: verif-sentinel\r\nContent-Length: 0\r\n\r\n")
+// (with a body, so that storage wrongly shared between consecutive datagrams is
+// overwritten by the time the case is judged)
+var c10Sentinel = []byte("OPTIONS sip:sentinel@verif.invalid SIP/2.0\r\nCall-ID: verif-sentinel\r\nX-Filler: " + strings.Repeat("s", 300) + "\r\nContent-Length: 64\r\n\r\n" + strings.Repeat("#", 64))
 
 // run feeds one (buffer, n) to the product's parse loop and returns what it
 // delivered (nil = nothing). A sentinel datagram queued behind it proves that
@@ -495,6 +497,76 @@ func c10Lab(t *testing.T) {
 		}
 		for id, rs := range byID {
 			failf(rt, "a datagram with Call-ID %q was relayed (%d times) that corresponds to no datagram of the burst\nburst: %v", id, len(rs), desc)
+		}
+	})
+}
+
+// FuzzIsolation: the native coverage-guided target of the thorough tier. The
+// fuzzer owns the datagram bytes, the cut and the kind of stale bytes behind
+// it; the oracle is the differential of the rapid part (the product's parse
+// loop on a dirty recycled buffer vs. a clean decode of exactly the datagram)
+// plus the absolute rule for datagrams that end inside their header section.
+func FuzzIsolation(f *testing.F) {
+	seeds := []string{
+		"INVITE sip:u@svc.test SIP/2.0\r\nVia: SIP/2.0/UDP 127.0.0.9:5060;branch=z9hG4bK1;rport\r\nFrom: <sip:a@b>;tag=1\r\nTo: <sip:c@d>\r\nCall-ID: x\r\nCSeq: 1 INVITE\r\nContent-Length: 3\r\n\r\nabc",
+		"SIP/2.0 200 OK\r\nv: SIP/2.0/UDP h;branch=z9hG4bKp, SIP/2.0/UDP 127.0.0.9:5060;branch=z9hG4bK1\r\nf: <sip:a@b>;tag=1\r\nt: <sip:c@d>;tag=2\r\ni: x\r\nCSeq: 1 INVITE\r\nl: 12\r\n\r\nv=0\r\no=- 1\r\n",
+		"MESSAGE sip:u@h SIP/2.0\nVia: SIP/2.0/UDP h\nCall-ID: lf\nContent-Length: 41\n\nBYE sip:x SIP/2.0\r\nContent-Length: 0\r\n\r\n",
+		"OPTIONS sip:h SIP/2.0\r\nVia: SIP/2.0/UDP h\r\nCall-ID: nolen\r\n\r\n",
+	}
+	for _, s := range seeds {
+		for dirt := 0; dirt < 5; dirt++ {
+			f.Add([]byte(s), uint16(0), byte(dirt))
+			f.Add([]byte(s), uint16(len(s)-2), byte(dirt))
+			f.Add([]byte(s), uint16(len(s)/2), byte(dirt))
+		}
+	}
+	var loop *c10Loop
+	f.Fuzz(func(t *testing.T, full []byte, cut uint16, dirt byte) {
+		if len(full) == 0 || len(full) > 60000 {
+			return
+		}
+		if loop == nil {
+			loop = newC10Loop()
+		}
+		d := full
+		if cut != 0 {
+			d = full[:1+int(cut)%len(full)]
+		}
+		buf := loop.u.msgBufPool.Alloc()
+		switch dirt % 5 {
+		case 0: // the rest of the uncut datagram and further copies of it
+			for o := 0; o+len(full) <= len(buf) && o < 4*len(full)+200; o += len(full) {
+				copy(buf[o:], full)
+			}
+		case 1:
+			for i := range buf {
+				buf[i] = 0xFF
+			}
+		case 2:
+			for i := range buf {
+				buf[i] = 0
+			}
+		case 3: // a complete other message right behind d
+			for i := range buf {
+				buf[i] = 0
+			}
+			copy(buf[len(d):], seeds[0])
+		default:
+			for i := range buf {
+				buf[i] = "\r\nabc"[i%5]
+			}
+		}
+		copy(buf, d)
+		got, err := loop.run(buf, len(d))
+		if err != nil {
+			t.Fatalf("%v\ndatagram: %s", err, jsonBytes(d))
+		}
+		clean := c10Clean(d)
+		if diff := prodSame(got, clean); diff != "" {
+			t.Fatalf("the parse loop on a dirty buffer (kind %d) and a clean decode of the same %d bytes disagree: %s\ndatagram: %s", dirt%5, len(d), diff, jsonBytes(d))
+		}
+		if got != nil && !bytes.Contains(d, []byte("\n\r\n")) && !bytes.Contains(d, []byte("\n\n")) {
+			t.Fatalf("a datagram without the blank line that ends the header section was delivered (completed from elsewhere)\ndatagram: %s", jsonBytes(d))
 		}
 	})
 }
